@@ -31,9 +31,31 @@ func NewDisconnectMessage() *DisconnectMessage {
 	return msg
 }
 
+// Len returns the number of bytes Encode writes.
+func (m *DisconnectMessage) Len() int {
+	if !m.dirty {
+		return len(m.dbuf)
+	}
+
+	return m.header.msglen()
+}
+
 // Decode decodes the message.
 func (m *DisconnectMessage) Decode(src []byte) (int, error) {
-	return m.header.decode(src)
+	n, err := m.header.decode(src)
+	if err != nil {
+		return n, err
+	}
+
+	// There is neither a variable header nor a payload.
+	if m.remlen != 0 {
+		return n, fmt.Errorf("disconnect/Decode: Remaining length (%d) must be 0", m.remlen)
+	}
+
+	// Encode reproduces the bytes that were decoded.
+	m.dirty = false
+
+	return n, nil
 }
 
 // Encode encodes the message.
